@@ -27,7 +27,7 @@ func Drive(w *hx.Writer, o *hx.Opts, wrap func(string) string) {
 	sort.Strings(names)
 	for _, n := range names {
 		id := "lazy:cat:" + n
-		if o.Want(id) {
+		if o.Want(id) && Stuck < 3 {
 			s, obs, f := RunScript(cat[n])
 			emit(id, s, obs, f)
 		}
@@ -37,6 +37,9 @@ func Drive(w *hx.Writer, o *hx.Opts, wrap func(string) string) {
 		id := fmt.Sprintf("lazy:gen:%d", i)
 		if !o.Want(id) {
 			continue
+		}
+		if Stuck >= 3 {
+			break // the connection hangs: three witnesses are enough, do not spend the run on timeouts
 		}
 		r := hx.NewRNG(o.Seed, id)
 		s0, next := RandomNext(r, r.Range(6, 30))
